@@ -50,6 +50,9 @@ def check(run):
         b8p = run.borrow("C08", why="a serialize / deserialize round trip is part of an engine's history")
         run.guard("C06.via.C08.2.positional", cfg, lambda: _C08.rule_positional(b8p, F, cfg))
         run.guard("C06.via.C08.3.legacy-bijection", cfg, lambda: _C08.rule_legacy(b8p, F, cfg))
+        from . import C13 as _C13t
+        bt = run.borrow("C13", why="rules added one at a time are visited in another order than in a batch build: the redirect chosen among matching rules must not depend on it")
+        run.guard("C06.via.C13.6.priority-suffix", cfg, lambda: _C13t.rule_tie_break(bt, F, cfg))
 
 
 def engine_types(F):
